@@ -157,4 +157,86 @@ INode(n, index, top, level, o) ==
     IN nl \o head \o Primary(prim) \o secs \o tail
 INodes(items, index, top, level, o) == IF items = <<>> THEN "" ELSE INode(Head(items), index, top, level, o) \o INodes(Tail(items), index + 1, top, level, o)
 IndentPrinted(syn) == INodes(Transformed, 1, TRUE, 0, IOpt(syn))
+
+(* ---------------------------------------------------------------- tabstops *)
+(* The same two formatters with a field callback that prints ${n} / ${n:placeholder}: WalkState.field starts at 1, every    *)
+(* push_tokens() call prints base + index for each of its fields and then advances the base by the largest index + 1       *)
+(* (C13).  Every operator returns [s: the text, f: the base after it].                                                       *)
+Mark(n, ph) == IF ph # "" THEN "${" \o ToString(n) \o ":" \o ph \o "}" ELSE "${" \o ToString(n) \o "}"
+RECURSIVE TokF(_, _, _)
+\* the items of one push_tokens() call: text and the largest index seen (-1: none)
+TokF(vl, base, largest) == IF vl = <<>> THEN [s |-> "", l |-> largest]
+                           ELSE LET h == Head(vl) r == TokF(Tail(vl), base, IF h.f /\ h.i > largest THEN h.i ELSE largest)
+                                IN [s |-> (IF h.f THEN Mark(base + h.i, h.s) ELSE h.s) \o r.s, l |-> r.l]
+Push(vl, base) == LET r == TokF(vl, base, -1) IN [s |-> r.s, f |-> IF r.l = -1 THEN base ELSE base + r.l + 1]
+CaretItems == <<[f |-> TRUE, i |-> 0, s |-> ""]>>
+PrintAttrF(a, base) ==
+    IF ~Named(a) \/ ~ShouldOutput(a) THEN [s |-> "", f |-> base]
+    ELSE LET v == IF Truthy(a) THEN Push(a.value, base) ELSE IF IsBool(a) THEN [s |-> a.name, f |-> base] ELSE Push(CaretItems, base)
+         IN [s |-> " " \o a.name \o "=" \o LQ(a) \o v.s \o RQ(a), f |-> v.f]
+RECURSIVE PrintAttrsF(_, _)
+PrintAttrsF(as, base) == IF as = <<>> THEN [s |-> "", f |-> base]
+                         ELSE LET h == PrintAttrF(Head(as), base) r == PrintAttrsF(Tail(as), h.f) IN [s |-> h.s \o r.s, f |-> r.f]
+RECURSIVE PrintNodesF(_, _), PrintNodeF(_, _)
+PrintNodesF(items, base) == IF items = <<>> THEN [s |-> "", f |-> base]
+                            ELSE LET h == PrintNodeF(Head(items), base) r == PrintNodesF(Tail(items), h.f) IN [s |-> h.s \o r.s, f |-> r.f]
+BodyF(n, base) ==
+    LET valTruthy == n.hasval /\ n.value # <<>>
+        ff == IF valTruthy /\ n.kids # <<>> THEN FirstField(n.value) ELSE 0
+    IN IF ff # 0
+       THEN LET a == Push(SubSeq(n.value, 1, ff - 1), base) k == PrintNodesF(n.kids, a.f) c == Push(SubSeq(n.value, ff + 1, Len(n.value)), k.f)
+            IN [s |-> a.s \o k.s \o c.s, f |-> c.f]
+       ELSE LET v == IF valTruthy THEN Push(n.value, base) ELSE [s |-> "", f |-> base]
+                k == PrintNodesF(n.kids, v.f)
+                c == IF ~valTruthy /\ n.kids = <<>> /\ n.name # "" THEN Push(CaretItems, k.f) ELSE [s |-> "", f |-> k.f]   \* the caret of an empty leaf
+            IN [s |-> v.s \o k.s \o c.s, f |-> c.f]
+PrintNodeF(n, base) ==
+    LET valTruthy == n.hasval /\ n.value # <<>> IN
+    IF n.name # ""
+    THEN LET at == PrintAttrsF(n.attrs, base) IN
+         IF n.sc /\ n.kids = <<>> /\ ~valTruthy THEN [s |-> "<" \o n.name \o at.s \o SelfCloseToken \o ">", f |-> at.f]
+         ELSE LET bd == BodyF(n, at.f) IN [s |-> "<" \o n.name \o at.s \o ">" \o bd.s \o "</" \o n.name \o ">", f |-> bd.f]
+    ELSE IF valTruthy THEN BodyF(n, base) ELSE [s |-> "", f |-> base]
+PrintedF == PrintNodesF(Transformed, 1).s
+
+RECURSIVE PrimaryF(_, _)
+ClassItems(vl) == [i \in 1..Len(vl) |-> IF vl[i].f THEN vl[i] ELSE [vl[i] EXCEPT !.s = DotWS(@, FALSE)]]
+PrimaryF(as, base) == IF as = <<>> THEN [s |-> "", f |-> base]
+                      ELSE LET a == Head(as)
+                               h == IF ~a.hasval THEN [s |-> "", f |-> base]
+                                    ELSE IF a.name = "class" THEN (LET v == Push(ClassItems(a.value), base) IN [s |-> "." \o v.s, f |-> v.f])
+                                    ELSE (LET v == Push(a.value, base) IN [s |-> "#" \o v.s, f |-> v.f])
+                               r == PrimaryF(Tail(as), h.f)
+                           IN [s |-> h.s \o r.s, f |-> r.f]
+RECURSIVE SecListF(_, _, _)
+SecListF(as, o, base) ==
+    IF as = <<>> THEN [s |-> "", f |-> base]
+    ELSE LET a == Head(as)
+             nm == IF a.name = NONE THEN "" ELSE a.name
+             h == IF IsBool(a) /\ ~Truthy(a) THEN [s |-> nm \o (IF o.boolVal # "" THEN "=" \o o.boolVal ELSE ""), f |-> base]
+                  ELSE (LET v == Push(IF Truthy(a) THEN a.value ELSE CaretItems, base) IN [s |-> nm \o "=" \o LQ(a) \o v.s \o RQ(a), f |-> v.f])
+             r == SecListF(Tail(as), o, h.f)
+         IN [s |-> h.s \o (IF Len(as) > 1 THEN o.glue ELSE "") \o r.s, f |-> r.f]
+RECURSIVE INodesF(_, _, _, _, _, _), INodeF(_, _, _, _, _, _)
+INodeF(n, index, top, level, o, base) ==
+    LET lvl == IF top THEN level ELSE level + 1
+        prim == SelectSeq(n.attrs, IsPrimary)
+        sec == SelectSeq(n.attrs, LAMBDA a : ~IsPrimary(a) /\ ShouldOutput(a))
+        snippet == n.name = "" /\ n.attrs = <<>>
+        nl == IF (top /\ index = 1) \/ snippet THEN "" ELSE "\n" \o Tabs(lvl)
+        head == IF n.name # "" /\ (n.name # "div" \/ prim = <<>>) THEN o.beforeName \o n.name ELSE ""
+        pr == PrimaryF(prim, base)
+        sl == SecListF(sec, o, pr.f)
+        secs == IF sec = <<>> THEN "" ELSE o.beforeAttr \o sl.s \o o.afterAttr
+        valTruthy == n.hasval /\ n.value # <<>>
+    IN IF n.sc /\ ~valTruthy /\ n.kids = <<>> THEN [s |-> nl \o head \o pr.s \o secs \o o.selfClose, f |-> sl.f]
+       ELSE LET v == IF ~valTruthy /\ n.kids # <<>> THEN [s |-> "", f |-> sl.f]
+                     ELSE (LET t == Push(IF valTruthy THEN n.value ELSE CaretItems, sl.f)
+                           IN [s |-> (IF n.name # "" \/ n.attrs # <<>> THEN " " ELSE "") \o t.s, f |-> t.f])
+                k == INodesF(n.kids, 1, FALSE, lvl, o, v.f)
+            IN [s |-> nl \o head \o pr.s \o secs \o v.s \o k.s, f |-> k.f]
+INodesF(items, index, top, level, o, base) ==
+    IF items = <<>> THEN [s |-> "", f |-> base]
+    ELSE LET h == INodeF(Head(items), index, top, level, o, base) r == INodesF(Tail(items), index + 1, top, level, o, h.f) IN [s |-> h.s \o r.s, f |-> r.f]
+IndentPrintedF(syn) == INodesF(Transformed, 1, TRUE, 0, IOpt(syn), 1).s
 =============================================================================
